@@ -1,0 +1,14 @@
+//go:build verif
+
+// Contracts for the deductive verifier under /verif (comment-only file: it
+// adds no code; compiled only with -tags verif).
+package connector
+
+// ---- C02: position durable before the connector is told ---------------------------
+
+// A flush hands `nil` to the persist callbacks only if EVERY connector's store
+// write of this batch succeeded and the transaction committed; all writes happen
+// inside one transaction; callbacks are spawned after the commit attempt.
+//verif:func (*Persister).flushNow(p, ctx, batch, st)
+//verif:call[callback-nil-only-if-stored-and-committed] go:(*Persister).flushNow$1 requires called("DB.NewTransaction") && (err$1 == nil ==> allok("$field.storeFunc") && succeeded("Transaction.Commit"))
+//verif:call[store-inside-transaction] $field.storeFunc requires succeeded("DB.NewTransaction") && !called("Transaction.Commit")
